@@ -45,8 +45,10 @@ RULE = (
     'simulator on the input spec and on the output circuit; exact rows '
     'd<=1e-7 (HS distance and phase-insensitive max-diff), analytic rows 1e-6, '
     'numerical rows (R+1)*sqrt(2*eps)*4; per-row postcondition. Non-trivial: '
-    'the pass changed the operation list (removal rows: an identity gate was '
-    'planted as well). Distinct = sha1 of the JSON case.'
+    'the pass changed the operation list (removal/substitution rows: a '
+    'removable gate was planted as well; CompressPass: an operation changed '
+    'cycle; passes that must not rewrite: >= 3 operations). '
+    'Distinct = sha1 of the JSON case.'
 )
 ASSUMPTIONS = [
     'vt/oracle/refsim.py (numpy tensor contraction) composes operations '
@@ -71,6 +73,10 @@ PI = math.pi
 
 class HangGuard(Exception):
     pass
+
+
+class RuntimeLost(Exception):
+    """The runtime server went away (not judged here: C13/C14)."""
 
 
 class RemoteError(Exception):
@@ -313,26 +319,72 @@ class Runtime:
                 pass
         self.kill()
 
+    def _rpc(self, msg, payload, t_end: float):
+        """One round trip.  Compiler._send_recv closes the client on ANY pass
+        error (and an attached server shuts down when its client goes), which
+        would cost a server restart per failing case; the wire protocol is
+        spoken directly instead: LOG messages are dropped, an ERROR (the
+        remote traceback of a failed task) is raised after the reply to the
+        current request has been consumed, so the connection stays in sync
+        and the server and its worker live on."""
+        from bqskit.runtime.message import RuntimeMessage as M
+        conn = self.comp.conn
+        conn.send((msg, payload))
+        err = None
+        while True:
+            while not conn.poll(0.5):
+                if time.monotonic() > t_end:
+                    self.kill()
+                    raise HangGuard()
+            m, p = conn.recv()
+            if m == M.LOG:
+                continue
+            if m == M.ERROR:
+                err = p
+                continue
+            if err is not None:
+                raise RemoteError(str(err))
+            return m, p
+
     def compile(self, circuit, passes, data: dict, guard_s: float = GUARD_S):
+        import logging
         from bqskit.compiler.status import CompilationStatus
-        comp = self.get()
+        from bqskit.compiler.task import CompilationTask
+        from bqskit.compiler.workflow import Workflow
+        from bqskit.runtime.message import RuntimeMessage as M
+        self.get()
+        task = CompilationTask(circuit, Workflow(passes))
+        task.request_data = True
+        task.logging_level = logging.CRITICAL
+        task.max_logging_depth = -1
+        task.data.update(data)
+        t_end = time.monotonic() + guard_s
+        tid = task.task_id
         try:
-            tid = comp.submit(circuit, passes, request_data=True, data=data)
-            t_end = time.monotonic() + guard_s
-            nap = 0.005
-            while comp.status(tid) != CompilationStatus.DONE:
+            self.comp.conn.send((M.SUBMIT, task))
+            nap = 0.004
+            while True:
+                m, st_ = self._rpc(M.STATUS, tid, t_end)
+                if st_ == CompilationStatus.DONE:
+                    break
                 if time.monotonic() > t_end:
                     self.kill()
                     raise HangGuard()
                 time.sleep(nap)
-                nap = min(0.1, nap * 1.5)
-            return comp.result(tid)
-        except RuntimeError as e:
-            cause = e.__cause__
-            self.kill()       # the client closes itself on any pass error
-            if isinstance(cause, RuntimeError) and 'Traceback' in str(cause):
-                raise RemoteError(str(cause)) from None
-            raise core.HarnessError(f'runtime failure: {e!r} / {cause!r}')
+                nap = min(0.1, nap * 1.4)
+            m, payload = self._rpc(M.REQUEST, tid, t_end)
+            if m != M.RESULT:
+                raise core.HarnessError(f'unexpected runtime message {m}')
+            return payload
+        except RemoteError:
+            try:                      # forget the failed task on the server
+                self._rpc(M.CANCEL, tid, time.monotonic() + 20)
+            except RemoteError:
+                pass
+            raise
+        except (EOFError, ConnectionError, OSError) as e:
+            self.kill()
+            raise RuntimeLost(repr(e))
 
 
 RT = Runtime()
@@ -356,9 +408,18 @@ def _sig_from_frames(frames, etype: str) -> str:
 
 def remote_exc_sig(text: str) -> tuple:
     frames = _FRAME.findall(text)
-    last = [ln for ln in text.strip().splitlines() if ln.strip()][-1]
-    etype = last.split(':', 1)[0].strip().split('.')[-1]
-    return _sig_from_frames(frames, etype), last[:400]
+    lines = text.rstrip().splitlines()
+    last_frame = max(
+        (i for i, ln in enumerate(lines) if ln.lstrip().startswith('File "')),
+        default=-1,
+    )
+    head = next(
+        (ln for ln in lines[last_frame + 1:] if ln and not ln[0].isspace()),
+        lines[-1] if lines else 'Exception',
+    )
+    etype = head.split(':', 1)[0].strip().split('.')[-1]
+    msg = ' '.join(lines[lines.index(head):])[:400] if head in lines else head
+    return _sig_from_frames(frames, etype), msg
 
 
 def local_exc_sig(exc: BaseException) -> tuple:
@@ -410,7 +471,7 @@ class Row:
     def __init__(
         self, name, klass, gen, make, post=None, runtime=False, R=None,
         eps=None, tol=None, rejects=None, reference=None, planted=None,
-        q=4, t=300, guard_s=GUARD_S,
+        q=4, t=300, guard_s=GUARD_S, nontrivial=None,
     ):
         assert klass in ('exact', 'analytic', 'numerical')
         self.name, self.klass, self.gen, self.make = name, klass, gen, make
@@ -421,6 +482,7 @@ class Row:
         )
         self.tol, self.rejects, self.reference = tol, rejects, reference
         self.planted = planted
+        self.nontrivial = nontrivial
         self.q, self.t, self.guard_s = q, t, guard_s
 
     def tolerance(self, case, cin) -> float:
@@ -465,13 +527,19 @@ def check(case) -> Outcome:
     out.label('row:' + r.name, 'class:' + r.klass)
     out.excluded = int(case.get('excluded', 0))
     spec = materialise(case['circ'])
-    cin = specs.build_circuit(spec)
+    if case.get('drop'):
+        cin, spec = build_with_gaps(spec, case['drop'])
+    else:
+        cin = specs.build_circuit(spec)
     U_in = refsim.spec_unitary(spec)
     built = r.make(case)
     try:
         cout, data = execute(r, built, cin.copy(), case)
     except HangGuard:
         out.label('hang-guard:' + r.name)
+        return out
+    except RuntimeLost:
+        out.label('runtime-lost:' + r.name)
         return out
     except RemoteError as e:
         sig, last = remote_exc_sig(str(e))
@@ -525,10 +593,34 @@ def check(case) -> Outcome:
             'built': built}
     if r.post is not None:
         r.post(case, cin, cout, info, out)
-    out.nontrivial = changed and (
-        r.planted is None or bool(r.planted(case))
-    )
+    if r.nontrivial is not None:
+        out.nontrivial = bool(r.nontrivial(case, cin, cout, info))
+    else:
+        out.nontrivial = changed and (
+            r.planted is None or bool(r.planted(case))
+        )
     return out
+
+
+def build_with_gaps(spec: dict, drop) -> tuple:
+    """Append every op, then pop the ops whose indices are in `drop` (latest
+    cycle first), which leaves idle gaps that appending alone never creates.
+    Returns the circuit and the spec of what remains."""
+    from bqskit.ir.circuit import Circuit
+    c = Circuit(len(spec['radixes']), list(spec['radixes']))
+    where = []
+    for o in spec['ops']:
+        cyc = c.append_gate(specs.build_gate(o['gate']), list(o['loc']),
+                            list(o.get('params', [])))
+        where.append((int(cyc), int(o['loc'][0])))
+    idx = sorted({i for i in drop if 0 <= i < len(where)},
+                 key=lambda i: where[i], reverse=True)
+    if len(idx) >= len(where):
+        idx = idx[1:]
+    for i in idx:
+        c.pop(where[i])
+    keep = [o for i, o in enumerate(spec['ops']) if i not in set(idx)]
+    return c, {'radixes': list(spec['radixes']), 'ops': keep}
 
 
 def replay(case) -> Outcome:
@@ -890,7 +982,7 @@ def mixed_circuit(draw, extra, max_n=5, max_ops=10, p_extra=4, qubits_only=False
 @st.composite
 def _conv_gen(draw, avoid):
     return {'opts': {'all': draw(st.booleans())},
-            'circ': draw(mixed_circuit(general_sq_op)), 'seed': 0}
+            'circ': draw(mixed_circuit(general_sq_op, p_extra=6)), 'seed': 0}
 
 
 def _multi_ops(c):
@@ -1097,7 +1189,7 @@ def _extend_gen(draw, avoid):
     if n < 2:
         circ['radixes'] = circ['radixes'] + [2]
         n = 2
-    ms = draw(st.sampled_from([None] + list(range(1, min(n, 4) + 1))))
+    ms = draw(st.sampled_from([None, min(n, 3)] + list(range(2, min(n, 4) + 1))))
     return {'opts': {'minimum_size': ms,
                      'graph': draw(st.sampled_from(['all', 'linear', 'star']))},
             'circ': circ, 'seed': 0}
@@ -1203,9 +1295,26 @@ def _same_program_post(name, no_blocks):
     return post
 
 
-row('CompressPass', 'exact', lambda avoid: _any_gen(avoid, True, 1),
+@st.composite
+def _compress_gen(draw, avoid):
+    c = {'opts': {}, 'seed': 0, 'circ': draw(specs.circuit_specs(
+        min_n=draw(st.sampled_from([1, 3, 3])), max_n=5, max_dim=216,
+        min_ops=draw(st.sampled_from([0, 4, 4])), max_ops=14, max_k=2,
+        placeholders=True, nested_depth=1,
+    ))}
+    n = len(c['circ']['ops'])
+    c['drop'] = [i for i in range(n) if draw(st.integers(0, 9)) < 4]
+    return c
+
+
+def _placed(c):
+    return [(cyc, o.gate, tuple(o.location)) for cyc, o in refsim.grid_ops(c)]
+
+
+row('CompressPass', 'exact', _compress_gen,
     lambda case: {'passes': [_passes().CompressPass()]},
-    _same_program_post('CompressPass', False), q=4, t=400)
+    _same_program_post('CompressPass', False), q=5, t=500,
+    nontrivial=lambda case, cin, cout, info: _placed(cin) != _placed(cout))
 row('UnfoldPass', 'exact', lambda avoid: _any_gen(avoid, True, 2),
     lambda case: {'passes': [_passes().UnfoldPass()]},
     _same_program_post('UnfoldPass', True), q=6, t=600)
@@ -1238,7 +1347,9 @@ def _ro_post(case, cin, cout, info, out):
         out.fail(f'post_untouched|{n}', 'operation list changed')
 
 
-row('ReadOnlyUtilityPasses', 'exact', _ro_gen, _ro_make, _ro_post, q=4, t=300)
+# non-trivial for passes that must not rewrite: the circuit has >= 3 operations
+row('ReadOnlyUtilityPasses', 'exact', _ro_gen, _ro_make, _ro_post, q=4, t=300,
+    nontrivial=lambda case, cin, cout, info: cin.num_operations >= 3)
 ROWS['ReadOnlyUtilityPasses'].covers = READONLY
 
 
@@ -1466,9 +1577,9 @@ row('ExhaustiveGateRemovalPass', 'numerical', _exh_gen, _exh_make,
 @st.composite
 def _iter_gen(draw, avoid):
     circ, planted = draw(num_circuit(max_ops=6))
-    w = draw(st.sampled_from([2, 3, 3, 5]))
+    w = draw(st.sampled_from([3, 3, 4, 5]))
     return {'opts': {'width_to_partition': w,
-                     'block_size': draw(st.integers(1, w - 1)),
+                     'block_size': draw(st.integers(2, w - 1)),
                      'start_from_left': draw(st.booleans()),
                      'success_threshold': draw(st.sampled_from(THRESHOLDS))},
             'circ': circ, 'planted': planted,
@@ -1604,6 +1715,425 @@ def _sub_post(case, cin, cout, info, out):
 
 row('SubstitutePass', 'numerical', _sub_gen, _sub_make, _sub_post,
     planted=_planted, q=5, t=150)
+# ------------------------------------------------------------ retarget (2q)
+# targets for which three applications suffice for any two-qubit block, so the
+# pass's `while g in circuit.gate_set` loop can terminate (max_depth = 3)
+REBASE_NEW = ['CZGate', 'CXGate', 'CYGate', 'CHGate', 'ISwapGate',
+              'SqrtISwapGate', 'BGate', 'ECRGate']
+REBASE_OLD = ['CXGate', 'CZGate', 'SwapGate', 'ISwapGate', 'CHGate', 'CYGate',
+              'SqrtCNOTGate', 'CSGate', 'SycamoreGate', 'RZZGate', 'CPGate']
+
+
+def _two_q(c):
+    return [o for o in op_list(c) if len(o[1]) == 2]
+
+
+@st.composite
+def _rebase_gen(draw, avoid):
+    old = draw(st.lists(st.sampled_from(REBASE_OLD), min_size=1, max_size=2,
+                        unique=True))
+    new = draw(st.lists(
+        st.sampled_from([g for g in REBASE_NEW if g not in old]),
+        min_size=1, max_size=2, unique=True,
+    ))
+    others = [g for g in NUM_2Q if g not in old]
+    circ, _ = draw(num_circuit(
+        min_n=2, max_n=3, max_ops=6, plant=0, p2=5, max_2q=3,
+        pool2=old * 3 + others[:2],
+    ))
+    depth = draw(st.sampled_from([3, 3, 3, 2]))
+    return {'opts': {'old': old, 'new': new, 'max_depth': depth,
+                     'max_retries': 1 if depth == 2 else
+                     draw(st.sampled_from([-1, -1, 2])),
+                     'success_threshold': draw(st.sampled_from(
+                         [1e-8, 1e-8, 1e-6]))},
+            'circ': circ, 'seed': draw(st.integers(0, 2**20))}
+
+
+def _rebase_make(case):
+    o = case['opts']
+    g = G()
+    return {'passes': [_passes().Rebase2QuditGatePass(
+        [getattr(g, x)() for x in o['old']],
+        [getattr(g, x)() for x in o['new']],
+        o['max_depth'], o['max_retries'], o['success_threshold'],
+    )]}
+
+
+def _rebase_R(case, cin):
+    return max(1, len(_two_q(cin)))
+
+
+def _rebase_post(case, cin, cout, info, out):
+    g = G()
+    o = case['opts']
+    old = {getattr(g, x)() for x in o['old']}
+    new = {getattr(g, x)() for x in o['new']}
+    had = sum(1 for x in _two_q(cin) if x[0] in old)
+    left = sum(1 for x in _two_q(cout) if x[0] in old)
+    out.label('source_ops>0' if had else 'source_ops=0')
+    if left:
+        out.fail('post_source_gone|Rebase2QuditGatePass',
+                 f'{left} of {had} remain, opts={o}')
+    extra = deep_gates(cout) - deep_gates(cin) - new - {g.U3Gate()}
+    if extra:
+        out.fail('post_gate_set|Rebase2QuditGatePass',
+                 str(sorted(map(gname, extra))))
+
+
+row('Rebase2QuditGatePass', 'numerical', _rebase_gen, _rebase_make,
+    _rebase_post, runtime=True, R=_rebase_R, q=3, t=100)
+
+
+@st.composite
+def _auto_gen(draw, avoid):
+    new = draw(st.lists(st.sampled_from(REBASE_NEW), min_size=1, max_size=2,
+                        unique=True))
+    circ, _ = draw(num_circuit(
+        min_n=2, max_n=3, max_ops=6, plant=0, p2=5, max_2q=3,
+        pool2=REBASE_OLD + new,
+    ))
+    return {'opts': {'new': new,
+                     'success_threshold': draw(st.sampled_from(
+                         [1e-8, 1e-8, 1e-6]))},
+            'circ': circ, 'seed': draw(st.integers(0, 2**20))}
+
+
+def _auto_make(case):
+    o = case['opts']
+    n = len(case['circ']['radixes'])
+    return {'passes': [_passes().AutoRebase2QuditGatePass(
+        3, -1, o['success_threshold'],
+    )], 'model': _model(n, gate_names=o['new'] + ['U3Gate'])}
+
+
+def _auto_post(case, cin, cout, info, out):
+    g = G()
+    new = {getattr(g, x)() for x in case['opts']['new']}
+    had = sum(1 for x in _two_q(cin) if x[0] not in new)
+    bad = [gname(x[0]) for x in _two_q(cout) if x[0] not in new]
+    out.label('source_ops>0' if had else 'source_ops=0')
+    if bad:
+        out.fail('post_source_gone|AutoRebase2QuditGatePass',
+                 f'non-native two-qudit gates remain: {bad}')
+    extra = deep_gates(cout) - deep_gates(cin) - new - {g.U3Gate()}
+    if extra:
+        out.fail('post_gate_set|AutoRebase2QuditGatePass',
+                 str(sorted(map(gname, extra))))
+
+
+row('AutoRebase2QuditGatePass', 'numerical', _auto_gen, _auto_make,
+    _auto_post, runtime=True, R=_rebase_R, q=3, t=100)
+
+
+# ------------------------------------------------------- numerical synthesis
+@st.composite
+def synth_target(draw, three_q_max_2q=2, p3=3):
+    """2 qubits (any content) or, less often, a shallow 3-qubit circuit."""
+    if draw(st.integers(0, 9)) < p3:
+        c, _ = draw(num_circuit(min_n=3, max_n=3, max_ops=5, plant=0, p2=4,
+                                max_2q=three_q_max_2q,
+                                pool2=['CXGate', 'CZGate']))
+    else:
+        c, _ = draw(num_circuit(min_n=2, max_n=2, max_ops=6, plant=0, p2=5))
+    return c
+
+
+LEAP_GATES = {'U3Gate', 'CNOTGate', 'CXGate', 'RXGate', 'RYGate', 'RZGate'}
+
+
+def _one(case, cin):
+    return 1
+
+
+def _synth_gen(p3=3, max2=2):
+    @st.composite
+    def gen(draw, avoid):
+        return {'opts': {'success_threshold': draw(st.sampled_from(
+            [1e-8, 1e-8, 1e-6]))},
+            'circ': draw(synth_target(max2, p3)),
+            'seed': draw(st.integers(0, 2**20))}
+    return gen
+
+
+def _synth_post(name, allowed_names):
+    def post(case, cin, cout, info, out):
+        out.label(f'{name}:{cin.num_qudits}q')
+        bad = [gname(x) for x in deep_gates(cout)
+               if type(x).__name__ not in allowed_names]
+        if bad:
+            out.fail(f'post_gate_set|{name}', str(sorted(bad)))
+    return post
+
+
+row('QFASTDecompositionPass', 'numerical', _synth_gen(2, 2),
+    lambda case: {'passes': [_passes().QFASTDecompositionPass(
+        success_threshold=case['opts']['success_threshold'])]},
+    _synth_post('QFASTDecompositionPass', {'PauliGate'}),
+    runtime=True, R=_one, q=2, t=60)
+row('QPredictDecompositionPass', 'numerical', _synth_gen(5, 2),
+    lambda case: {'passes': [_passes().QPredictDecompositionPass(
+        success_threshold=case['opts']['success_threshold'])]},
+    _synth_post('QPredictDecompositionPass',
+                {'VariableUnitaryGate', 'ConstantUnitaryGate'}),
+    runtime=True, R=_one, q=2, t=60)
+row('LEAPSynthesisPass', 'numerical', _synth_gen(1, 1),
+    lambda case: {'passes': [_passes().LEAPSynthesisPass(
+        success_threshold=case['opts']['success_threshold'])]},
+    _synth_post('LEAPSynthesisPass', LEAP_GATES),
+    runtime=True, R=_one, q=2, t=60)
+row('QSearchSynthesisPass', 'numerical', _synth_gen(1, 1),
+    lambda case: {'passes': [_passes().QSearchSynthesisPass(
+        success_threshold=case['opts']['success_threshold'])]},
+    _synth_post('QSearchSynthesisPass', LEAP_GATES),
+    runtime=True, R=_one, q=2, t=60)
+
+
+@st.composite
+def _pas_gen(draw, avoid):
+    return {'opts': {'input_perm': draw(st.booleans()),
+                     'output_perm': draw(st.booleans()),
+                     'inner': draw(st.sampled_from(['leap', 'qsearch'])),
+                     'success_threshold': 1e-8},
+            'circ': draw(synth_target(1, 1)),
+            'seed': draw(st.integers(0, 2**20))}
+
+
+def _pas_make(case):
+    p = _passes()
+    o = case['opts']
+    inner = p.LEAPSynthesisPass() if o['inner'] == 'leap' else \
+        p.QSearchSynthesisPass()
+    return {'passes': [p.PermutationAwareSynthesisPass(
+        o['input_perm'], o['output_perm'], inner,
+    )]}
+
+
+def _pas_reference(case, U_in, data, out):
+    """The pass reports the permutations it chose; the output must implement
+    Po^T U Pi for exactly those."""
+    n = int(round(math.log2(U_in.shape[0])))
+    pi = tuple(data['initial_mapping'])
+    po = tuple(data['final_mapping'])
+    ident = tuple(range(n))
+    if sorted(pi) != list(ident) or sorted(po) != list(ident):
+        out.fail('post_mapping_invalid|PermutationAwareSynthesisPass',
+                 f'{pi} {po}')
+        return None
+    o = case['opts']
+    if (not o['input_perm'] and pi != ident) or \
+            (not o['output_perm'] and po != ident):
+        out.fail('post_perm_not_requested|PermutationAwareSynthesisPass',
+                 f'pi={pi} po={po} opts={o}')
+    out.label('pas:permuted' if (pi != ident or po != ident) else
+              'pas:identity-perm')
+    return _perm_matrix(n, 2, po).T @ U_in @ _perm_matrix(n, 2, pi)
+
+
+row('PermutationAwareSynthesisPass', 'numerical', _pas_gen, _pas_make,
+    _synth_post('PermutationAwareSynthesisPass',
+                LEAP_GATES),
+    runtime=True, R=_one, reference=_pas_reference, q=2, t=60)
+# =============================================================== analytic rows
+@st.composite
+def vu_circuit(draw, n, kmin=2, max_vu=2):
+    ops, nvu = [], 0
+    for _ in range(draw(st.integers(1, 4))):
+        if nvu < max_vu and (nvu == 0 or draw(st.integers(0, 9)) < 5):
+            lo = min(kmin, n) if draw(st.integers(0, 9)) < 8 else 2
+            k = draw(st.integers(lo, n))
+            loc = list(draw(st.permutations(range(n)))[:k])
+            ops.append({'gate': gs('VariableUnitaryGate', k, [2] * k),
+                        'loc': loc,
+                        'u': {'kind': draw(st.sampled_from(U_KINDS)),
+                              'seed': draw(st.integers(0, 2**31))}})
+            nvu += 1
+        else:
+            ops.append(draw(any_op([2] * n, None, nested=0, wrappers=False)))
+    return {'radixes': [2] * n, 'ops': ops}
+
+
+def _vu_widths(c):
+    V = G().VariableUnitaryGate
+    return [o.num_qudits for _, o in refsim.grid_ops(c) if isinstance(o.gate, V)]
+
+
+DECOMP_GATES = {'VariableUnitaryGate', 'MPRYGate', 'MPRZGate', 'CNOTGate',
+                'CXGate', 'RYGate', 'RZGate', 'HGate'}
+
+
+def _decomp_post(name, full):
+    def post(case, cin, cout, info, out):
+        m = case['opts']['min_qudit_size']
+        a, b = _vu_widths(cin), _vu_widths(cout)
+        big = [w for w in a if w > m]
+        out.label('vu>min' if big else 'vu<=min')
+        kinds = {o['u']['kind'] for o in case['circ']['ops'] if 'u' in o}
+        for k in kinds:
+            out.label('ukind:' + k)
+        if big:
+            limit = m if full else max(a) - 1
+            if b and max(b) > limit:
+                out.fail(f'post_source_gone|{name}',
+                         f'VariableUnitaryGate widths {sorted(a)} -> '
+                         f'{sorted(set(b))}, min_qudit_size={m}')
+        bad = [gname(x) for x in deep_gates(cout) - deep_gates(cin)
+               if type(x).__name__ not in DECOMP_GATES]
+        if bad:
+            out.fail(f'post_gate_set|{name}', str(sorted(bad)))
+    return post
+
+
+def _decomp_gen(min_lo, extra=None):
+    @st.composite
+    def gen(draw, avoid):
+        n = draw(st.sampled_from([3, 3, 3, 4]))
+        m = draw(st.integers(min_lo, n - 1))
+        o = {'min_qudit_size': m}
+        case = {'circ': draw(vu_circuit(n, m + 1)), 'seed': 0}
+        if extra:
+            extra(draw, avoid, o, case)
+        case['opts'] = o
+        return case
+    return gen
+
+
+row('QSDPass', 'analytic', _decomp_gen(1),
+    lambda case: {'passes': [_passes().QSDPass(
+        case['opts']['min_qudit_size'])]},
+    _decomp_post('QSDPass', False), runtime=True, q=3, t=150)
+row('FullQSDPass', 'analytic', _decomp_gen(1),
+    lambda case: {'passes': [_passes().FullQSDPass(
+        case['opts']['min_qudit_size'])]},
+    _decomp_post('FullQSDPass', True), runtime=True, q=3, t=150)
+# min_qudit_size >= 2: the construction (section 5.2 merge) needs >= 3-qubit
+# unitaries; FullBlockZXZPass enforces the same bound
+row('BlockZXZPass', 'analytic', _decomp_gen(2),
+    lambda case: {'passes': [_passes().BlockZXZPass(
+        case['opts']['min_qudit_size'])]},
+    _decomp_post('BlockZXZPass', False), runtime=True, q=3, t=150)
+
+SIG_EXTRACT = 'exc|extract_diagonal.py:decompose|ValueError|circuit.py:instantiate'
+
+
+def _fbz_extra(draw, avoid, o, case):
+    if 'extract' in avoid:
+        o['perform_extract'] = False
+        case['excluded'] = 1
+    else:
+        o['perform_extract'] = draw(st.sampled_from([False, False, True]))
+
+
+def _fbz_eps(case):
+    return 1e-8
+
+
+row('FullBlockZXZPass', 'analytic', _decomp_gen(2, _fbz_extra),
+    lambda case: {'passes': [_passes().FullBlockZXZPass(
+        case['opts']['min_qudit_size'],
+        perform_extract=case['opts']['perform_extract'])]},
+    _decomp_post('FullBlockZXZPass', True), runtime=True,
+    tol=lambda case, cin: ANALYTIC_TOL if not case['opts']['perform_extract']
+    else numerical_tol(1e-8, 64), q=3, t=150)
+
+
+# ------------------------------------------------- WalshDiagonalSynthesisPass
+DIAG_1Q = ['RZGate', 'U1Gate', 'ZGate', 'SGate', 'TGate', 'TdgGate']
+DIAG_2Q = ['CZGate', 'CPGate', 'RZZGate', 'CRZGate', 'ZZGate', 'CSGate',
+           'CTGate']
+
+
+@st.composite
+def diag_op(draw, radixes):
+    n = len(radixes)
+    kind = draw(st.integers(0, 9))
+    if kind < 4 or n == 1:
+        g = gs(draw(st.sampled_from(DIAG_1Q)))
+        loc = [draw(st.integers(0, n - 1))]
+    elif kind < 8:
+        g = gs(draw(st.sampled_from(DIAG_2Q)))
+        loc = list(draw(st.permutations(range(n)))[:2])
+    else:
+        k = draw(st.integers(1, min(3, n)))
+        loc = list(draw(st.permutations(range(n)))[:k])
+        which = draw(st.sampled_from(['DiagonalGate', 'PauliZGate', 'MPRZGate']))
+        if which == 'MPRZGate' and k < 2:
+            which = 'PauliZGate'
+        g = gs(which, k, draw(st.integers(0, k - 1))) if which == 'MPRZGate' \
+            else gs(which, k)
+    return op(g, loc, P(draw, _nparams(g)))
+
+
+@st.composite
+def _walsh_gen(draw, avoid):
+    n = draw(st.integers(1, 5))
+    ops = [draw(diag_op([2] * n)) for _ in range(draw(st.integers(0, 8)))]
+    return {'opts': {'parameter_precision': draw(st.sampled_from(
+        [1e-8, 1e-8, 1e-12, 1e-4]))},
+        'circ': {'radixes': [2] * n, 'ops': ops}, 'seed': 0}
+
+
+def _walsh_tol(case, cin):
+    return ANALYTIC_TOL + cin.dim * case['opts']['parameter_precision']
+
+
+row('WalshDiagonalSynthesisPass', 'analytic', _walsh_gen,
+    lambda case: {'passes': [_passes().WalshDiagonalSynthesisPass(
+        case['opts']['parameter_precision'])]},
+    _synth_post('WalshDiagonalSynthesisPass', {'RZGate', 'CNOTGate', 'CXGate'}),
+    tol=_walsh_tol, q=6, t=600)
+
+
+# -------------------------------------------------------- ExtractDiagonalPass
+@st.composite
+def _ext_gen(draw, avoid):
+    """The domain its only caller (FullBlockZXZPass) produces: two-qubit
+    VariableUnitaryGates on ONE location, separated only by operations that
+    commute with a diagonal on that location."""
+    n = draw(st.integers(2, 3))
+    loc = list(draw(st.permutations(range(n)))[:2])
+    rest = [q for q in range(n) if q not in loc]
+    m = draw(st.integers(0, 1)) if 'extract' in avoid else \
+        draw(st.sampled_from([0, 1, 2, 2, 3]))
+    ops = []
+    for i in range(m):
+        ops.append({'gate': gs('VariableUnitaryGate', 2, [2, 2]), 'loc': loc,
+                    'u': {'kind': draw(st.sampled_from(
+                        ['haar', 'haar', 'identity', 'diag', 'cnotlike'])),
+                        'seed': draw(st.integers(0, 2**31))}})
+        for _ in range(draw(st.integers(0, 2))):
+            kind = draw(st.integers(0, 2))
+            if kind == 0:
+                g = gs(draw(st.sampled_from(DIAG_1Q)))
+                ops.append(op(g, [draw(st.sampled_from(loc))],
+                              P(draw, _nparams(g))))
+            elif kind == 1 and rest:
+                ops.append(op(gs('CXGate'),
+                              [draw(st.sampled_from(loc)), rest[0]]))
+            elif rest:
+                g = gs(draw(st.sampled_from(NUM_1Q)))
+                ops.append(op(g, [rest[0]], P(draw, _nparams(g))))
+    case = {'opts': {'success_threshold': 1e-8}, 'circ':
+            {'radixes': [2] * n, 'ops': ops},
+            'seed': draw(st.integers(0, 2**20))}
+    if 'extract' in avoid:
+        case['excluded'] = 1
+    return case
+
+
+def _ext_make(case):
+    from bqskit.passes.processing.extract_diagonal import ExtractDiagonalPass
+    return {'passes': [ExtractDiagonalPass(
+        2, instantiate_options={'seed': int(case['seed'])},
+    )]}
+
+
+def _ext_post(case, cin, cout, info, out):
+    out.label(f'extract:vu={len(_vu_widths(cin))}')
+
+
+row('ExtractDiagonalPass', 'numerical', _ext_gen, _ext_make, _ext_post,
+    R=lambda case, cin: len(_vu_widths(cin)), q=3, t=100)
 # ------------------------------------------------------------------- driver
 def row_strategy(r: Row, avoid=frozenset()):
     return r.gen(avoid).map(lambda c, n=r.name: dict(c, row=n))
@@ -1652,7 +2182,11 @@ def run_shard(ctx: core.Ctx) -> core.ShardResult:
 
 
 KNOWN_TRIGGERS = {
+    # flag understood by the generators -> signature that, when listed as an
+    # open known finding, makes them avoid the trigger by construction
     'gsq_qudit': SIG_GSQ_QUDIT,
+    'extract': SIG_EXTRACT,
+    'filter_ignored': 'post_filter|TreeScanningGateRemovalPass',
 }
 
 
